@@ -4,6 +4,7 @@ use crate::engine::{Runtime, Stage, Tier};
 pub mod common;
 pub mod c01;
 pub mod c02;
+pub mod c03;
 pub mod c04;
 pub mod c05;
 pub mod c06;
@@ -29,6 +30,7 @@ pub fn lookup(id: &str) -> Option<PropDef> {
     Some(match id {
         "C01" => c01::def(),
         "C02" => c02::def(),
+        "C03" => c03::def(),
         "C04" => c04::def(),
         "C05" => c05::def(),
         "C06" => c06::def(),
